@@ -20,6 +20,13 @@ def _cli_rows(chk, n):
         fault = rnd.choice(faults)
         case, flat = C.make_case(1, prog, [cfg], [fault])
         jobs.append({"prog": prog, "flat": flat, "cfg": cfg, "fault": fault, "fault_kind": "exc", "tla": case})
+    # an exception / a KeyboardInterrupt in the very first hook (before_all): whatever escapes the runner must still give a
+    # non-zero exit code
+    for i in picks[:6]:
+        prog, cfgs, faults = pl[i]
+        cfg = dict(cfgs[0], retry=False, dry=False)
+        case, flat = C.make_case(1, prog, [cfg], [[1, 0]])
+        jobs.append({"prog": prog, "flat": flat, "cfg": cfg, "fault": [1, 0], "fault_kind": "kbd" if len(jobs) % 3 else "exc", "tla": case})
 
     def one(job):
         return cli.run_cli(job), drive.run_case(job)
